@@ -64,7 +64,7 @@ def _explore(task):
                 # the model does not cover what the code did on this path: hand the path witness to the
                 # real side (a failure there is a genuine, replayed violation); the run is otherwise
                 # inconclusive, never a pass
-                out['gaps'].append(dict(msg=str(g)[:300], values={k2: C.enc(v) for k2, v in E.witness().items()}))
+                out['gaps'].append(dict(msg=str(g)[:300], values={k2: C.enc(v) for k2, v in E.diverse_witness().items()}))
                 if len(out['gaps']) >= 4:
                     E.inconclusive.append('model gap: %s' % str(g)[:200])
                     raise symx.Inconclusive('model gap')
